@@ -225,6 +225,10 @@ func checkC16(c *Ctx, r *Report) {
 			}
 			x, okx := constInt(b.X)
 			call := isResultOfCall(b.Y, 0, "math/rand.Intn")
+			if !okx { // the sum written the other way round
+				x, okx = constInt(b.Y)
+				call = isResultOfCall(b.X, 0, "math/rand.Intn")
+			}
 			if okx && x == minV && call != nil {
 				if n, okn := constInt(call.Common().Args[0]); okn && n == maxV-minV {
 					ok = true
@@ -384,6 +388,50 @@ func checkC16(c *Ctx, r *Report) {
 				return in.Block().Index != acceptTrue[0].B.Succs[acceptTrue[0].Succ].Index && false
 			}}
 			r5.mustPass(fn, serve+": accepted request passes defer CompleteRequest(p) before any exit", q, len(acceptTrue))
+		}
+	}
+	// configuration reaches the limiter it is named for: each parameter of WithServerRateLimit is stored in its own
+	// settings field, and each settings field initialises its own limiter field
+	{
+		setT := an2 + ".autoNATSettings"
+		wantOpt := map[string]string{"serverRPM": "rpm", "serverPerPeerRPM": "perPeerRPM", "serverDialDataRPM": "dialDataRPM", "maxConcurrentRequestsPerPeer": "maxConcurrentRequestsPerPeer"}
+		nOpt := 0
+		if f := r5.need(an2 + ".WithServerRateLimit"); f != nil {
+			for _, g := range append([]*ssa.Function{f}, allAnon(f)...) {
+				for _, in := range findInstrsIn(g, func(in ssa.Instruction) bool { _, ok := in.(*ssa.Store); return ok }) {
+					st := in.(*ssa.Store)
+					fl, base := fieldAddrOf(st.Addr)
+					if fl == nil || fieldKeyOf(base, fl) != setT+"."+fl.Name() {
+						continue
+					}
+					want, tabled := wantOpt[fl.Name()]
+					if !tabled {
+						continue
+					}
+					nOpt++
+					p, isP := strip(st.Val).(*ssa.Parameter)
+					r5.Check(isP && p.Parent() == f && paramIs(p, want), "WithServerRateLimit: "+fl.Name()+" = "+want, instrPos(in), 1, "", "a rate limit is configured from the wrong argument: the limiter enforces a different cap than the operator asked for", describeVal(strip(st.Val)))
+				}
+			}
+			r5.Check(nOpt == 4, "WithServerRateLimit: stores the four limits", f.Pos(), nOpt, "", "", "")
+		}
+		wantLim := map[string]string{"RPM": "serverRPM", "PerPeerRPM": "serverPerPeerRPM", "DialDataRPM": "serverDialDataRPM", "MaxConcurrentRequestsPerPeer": "maxConcurrentRequestsPerPeer"}
+		nLim := 0
+		if f := r5.need(an2 + ".newServer"); f != nil {
+			for _, in := range findInstrs(f, func(in ssa.Instruction) bool { _, ok := in.(*ssa.Store); return ok }) {
+				st := in.(*ssa.Store)
+				fl, base := fieldAddrOf(st.Addr)
+				if fl == nil || fieldKeyOf(base, fl) != rlT+"."+fl.Name() {
+					continue
+				}
+				want, tabled := wantLim[fl.Name()]
+				if !tabled {
+					continue
+				}
+				nLim++
+				r5.Check(isLoadOfField(setT+"."+want)(strip(st.Val)) || isLoadOfField(setT+"."+want)(strip2(st.Val)), "newServer: rateLimiter."+fl.Name()+" = settings."+want, instrPos(in), 1, "", "a limiter cap is initialised from another setting", describeVal(strip(st.Val)))
+			}
+			r5.Check(nLim == 4, "newServer: initialises the four limiter caps", f.Pos(), nLim, "", "", "")
 		}
 	}
 	// the in-progress count: +1 on admission, -1 on completion, the entry dropped only when nothing is in progress
@@ -557,7 +605,20 @@ func checkC16(c *Ctx, r *Report) {
 			r6.Fail(rmK+": announced size, byte counter and Read", f.Pos(), "the length prefix, the counter of bytes read (0, then += Read's count) or the Read call was not identified", "")
 		} else {
 			isN := func(v ssa.Value) bool { return peel(v) == ssa.Value(nPhi) }
-			isSz := func(v ssa.Value) bool { return peel(v) == szV }
+			isBuf := func(v ssa.Value) bool { return isLoadOfField(an2 + ".msgReader.Buf")(strip2(v)) }
+			// the message: Buf[:announced size]; its length is the announced size
+			var isSz func(v ssa.Value) bool
+			isMsg := func(v ssa.Value) bool {
+				sl, ok := strip(v).(*ssa.Slice)
+				return ok && sl.Low == nil && sl.High != nil && peel(sl.High) == szV && isBuf(sl.X)
+			}
+			isSz = func(v ssa.Value) bool {
+				if peel(v) == szV {
+					return true
+				}
+				call, ok := peel(v).(*ssa.Call)
+				return ok && calleeKey(call) == "builtin.len" && isMsg(call.Call.Args[0])
+			}
 			var okRets []ssa.Instruction
 			for _, ret := range returnsOf(f) {
 				if !isNilConst(retVal(ret, 0)) {
@@ -572,12 +633,14 @@ func checkC16(c *Ctx, r *Report) {
 			}
 			r6.guard(f, "return message", okRets, "announced size <= len(Buf)", edgeExcl(isSz, isBufLen, ordGT), nil)
 			for _, ret := range okRets {
-				sl, ok := retVal(ret.(*ssa.Return), 0).(*ssa.Slice)
-				r6.Check(ok && sl.Low == nil && sl.High != nil && isSz(sl.High) && isLoadOfField(an2+".msgReader.Buf")(strip2(sl.X)), rmK+": returns Buf[:announced size]", instrPos(ret), 1, "", "", "")
+				r6.Check(isMsg(retVal(ret.(*ssa.Return), 0)), rmK+": returns Buf[:announced size]", instrPos(ret), 1, "", "", "")
 			}
 			for _, rd := range reads {
+				// bytes n.. of the message: Buf[n:size], or msg[n:] with msg = Buf[:size]
 				sl, ok := strip(rd.Common().Args[0]).(*ssa.Slice)
-				r6.Check(ok && sl.Low != nil && isN(sl.Low) && sl.High != nil && isSz(sl.High) && isLoadOfField(an2+".msgReader.Buf")(strip2(sl.X)), rmK+": Read fills Buf[n:announced size]", instrPos(rd.(ssa.Instruction)), 1, "", "bytes counted are not the bytes of this message", "")
+				okFill := ok && sl.Low != nil && isN(sl.Low) &&
+					((sl.High != nil && isSz(sl.High) && isBuf(sl.X)) || (sl.High == nil && isMsg(sl.X)))
+				r6.Check(okFill, rmK+": Read fills Buf[n:announced size]", instrPos(rd.(ssa.Instruction)), 1, "", "bytes counted are not the bytes of this message", "")
 			}
 		}
 	}
